@@ -24,6 +24,37 @@ def run(pm, ctx):
     ctx.rule("C18-a", "a prediction row may only depend on its own input row: no operation may mix rows of the predicted array", floor=14)
     ctx.rule("C18-b", "KernelRIM must evaluate its kernel between the new points and the stored training points", floor=3)
     ctx.rule("C18-c", "training-set predictions reproduce what fit stored", floor=14)
+    ctx.rule("C18-d", "prediction compares the data with parameters learned in float64: validating the input to a narrower dtype makes training rows "
+             "fall on the other side of their own thresholds", floor=4)
+    import ast as _ast
+    from ..astutil import call_name as _cn
+    seen_calls = 0
+    for K in pm.estimators():
+        for mname, f in K.methods.items():
+            for c in _ast.walk(f):
+                if isinstance(c, _ast.Call) and (_cn(c) or "").split(".")[-1] in ("check_array", "validate_data", "check_X_y", "asarray", "array", "astype"):
+                    last = (_cn(c) or "").split(".")[-1]
+                    dt = next((k.value for k in c.keywords if k.arg == "dtype"), None)
+                    if last == "astype" and c.args:
+                        dt = c.args[0]
+                    if last in ("asarray", "array", "astype") and dt is None:
+                        continue
+                    if last in ("asarray", "array", "astype") and not any(isinstance(n, _ast.Name) and n.id == "X" for n in _ast.walk(c)):
+                        continue
+                    seen_calls += 1
+                    site = f"{K.name}.{mname}: {norm_src(c)[:50]}"
+                    src = norm_src(dt) if dt is not None else None
+                    if src is None or src in ("'numeric'", '"numeric"', "np.float64", "float", "np.double", "None", "'float64'", '"float64"', "[np.float64]"):
+                        ctx.ok("C18-d", site, src or "default (numeric, float64 kept)")
+                    elif src in ("np.float32", "np.float16", "'float32'", '"float32"', "np.single", "np.half", "int", "np.int64", "np.int32", "[np.float64, np.float32]", "[np.float32]"):
+                        ctx.violation("C18-d", K.unit.relpath, f"{K.name}.{mname}", norm_src(c)[:120], f"the data is converted to {src} before it is compared with parameters learned "
+                                      f"on float64 data: values that differ only beyond {src} precision are routed / scored differently from what fit stored", line=c.lineno, site=site)
+                    elif mname != "fit" and last in ("check_array", "validate_data"):
+                        ctx.unrecognised("C18-d", site, f"dtype expression {src}")
+                    else:
+                        ctx.ok("C18-d", site, src)
+    if seen_calls == 0:
+        raise AnalysisError("anchor vanished: validation calls of the estimators")
     for K in pm.concrete_estimators():
         if K.name.startswith("Categorical"):
             continue
